@@ -33,7 +33,7 @@ func init() {
 	register(&Rule{Name: "COW-3", Floor: 2,
 		Doc: "the argument of storeState is the result of (*state).clone() applied to m.loadState() of the same Mux in the same function, and every state mutator called by a writer is applied to that clone",
 		Run: ruleCOW3})
-	register(&Rule{Name: "COW-4", Floor: 10,
+	register(&Rule{Name: "COW-4", Floor: 6,
 		Doc: "no function reachable from a serving root writes routing/option state it did not allocate itself (readers are effect-free)",
 		Run: ruleCOW4})
 	register(&Rule{Name: "COW-5", Floor: 8,
